@@ -89,6 +89,30 @@ CHECKS = {
         text="Generated programs with mixes of consumed/unconsumed names, aliases, and outputs of every producer kind are compiled with optimisation on and off; for every unreferenced top-level name exactly one empty labelled anchor must exist whose network carries the reference value of the result's own signal(s), producers must carry name and declaration line, declared constants must be labelled with name and value, consumed names must not get anchors.",
         design_ref="DESIGN.md 3 (C20)",
     ),
+    "C08": dict(
+        category="fault_enumeration",
+        technique="runtime monitoring with fault injection: injected CP-SAT solver schedules (first solution / time budgets / timed-out strategies / default under load) x pole options x retries; geometric and wiring invariants checked on every emitted blueprint, partition of emitted wires vs the planner's recorded edges, RelayNode invariant from the plan monitor",
+        text="Which placement CP-SAT returns depends on budget, threads and load; the check enumerates those outcomes by injecting solver schedules into the real layout engine and checks every emitted blueprint against game-data geometry (collision boxes, connectors, colours, wire reach) and against the planner's own edge list (relays join nothing). Fault enumeration is the right level: validity must hold for every outcome of a nondeterministic search.",
+        design_ref="DESIGN.md 3 (C08), 2.5",
+    ),
+    "C09": dict(
+        category="exploration",
+        technique="runtime monitoring: multiset of user-role entities (role recorded by the plan monitor) in the emitted blueprint vs the reference multiset from interpreting the program description, under pole options and injected solver schedules",
+        text="Programs placing 1-1000+ entities through literals, int variables, iterators, arithmetic, functions and nested loops are compiled under pole options and solver schedules (incl. the >500-entity decomposition path); the multiset of (prototype, top-left tile, static properties) of user entities must equal the reference multiset.",
+        design_ref="DESIGN.md 3 (C09)",
+    ),
+    "C18": dict(
+        category="exploration",
+        technique="runtime monitoring: supply-area coverage, copper connectivity and reach from game data on every --power-poles build; canonical logical circuit and user-entity multiset compared with the pole-free build of the same source",
+        text="Programs are compiled with each pole type and without poles under solver schedules; coverage of every electric consumer, one copper grid, copper reach, unchanged logical circuit (canonical form) and unchanged user entities are checked per build; without the option only relay poles may appear. Coverage / single-grid failures on this tree are listed findings; the other clauses are live.",
+        design_ref="DESIGN.md 3 (C18)",
+    ),
+    "C19": dict(
+        category="fault_enumeration",
+        technique="runtime monitoring with fault injection: the same source compiled across hash seeds (fresh interpreters), working directories, injected solver schedules / time budgets and in-process sequences; canonical logical circuits compared by colour refinement",
+        text="Sources of run-to-run variation are enumerated explicitly (PYTHONHASHSEED, process, cwd, solver schedule and budget, earlier compilations in the same process); every run's canonical circuit (configured entities + connector partition, poles contracted) must be identical.",
+        design_ref="DESIGN.md 3 (C19), 2.5",
+    ),
 }
 
 PENDING = {}
